@@ -268,7 +268,13 @@ pub fn render(lang: Lang, items: &[Item]) -> String {
         out.push_str(&format!("const r{n} = require({});\n", q(spec)))
       }
       Item::ImportTypeExpr { spec } => {
-        out.push_str(&format!("type Q{n} = import({}).X;\n", q(spec)))
+        // every third one sits inside a (nested) namespace or a
+        // `declare global` block: same dependency, deeper in the tree
+        match (n + spec.len()) % 6 {
+          0 => out.push_str(&format!("declare namespace NsQ{n} {{ export type Q = import({}).X; }}\n", q(spec))),
+          1 => out.push_str(&format!("declare namespace NsQ{n} {{ export namespace In {{ export type Q = import({}).X; }} }}\n", q(spec))),
+          _ => out.push_str(&format!("type Q{n} = import({}).X;\n", q(spec))),
+        }
       }
       Item::ImportEquals { spec } => {
         out.push_str(&format!("import q{n} = require({});\n", q(spec)))
